@@ -235,6 +235,15 @@ class Analysis:
             v = self._eval_payload(f, pl, pos, env, depth, stack)
             if v is not None:
                 return v
+        if "{closure" in f.key and len(pl) == 2 and pl[1] == "*" and l != 1 and depth < 30:
+            # `let r = (*env).k; .. *r ..`: a captured reference copied out of the environment first
+            ds = f.defs(l)
+            if len(ds) == 1 and ds[0]["kind"] == "assign" and ds[0]["rv"][0] == "use":
+                src = op_place(ds[0]["rv"][1])
+                if src and src[0] == 1 and any(isinstance(e, str) and e.startswith(".") for e in src[1:]):
+                    v = self._eval_upvar(f, list(src) + ["*"], depth, stack)
+                    if v is not None:
+                        return v
         if l == 1 and "{closure" in f.key and fields and depth < 30:
             v = self._eval_upvar(f, pl, depth, stack)
             if v is not None:
@@ -273,10 +282,23 @@ class Analysis:
             return out
         if len(ds) != 1 or ds[0]["kind"] != "call":
             return None
-        return self._payload_of_branch(f, ds[0]["term"], pos, env, depth, stack)
+        r = self._payload_of_branch(f, ds[0]["term"], pos, env, depth, stack)
+        if isinstance(r, tuple) and r and r[0] == "enum-index":
+            # place: _n as Some . 0 (payload) . 0 (index)
+            tail = [e for e in pl[2:] if isinstance(e, str) and e.startswith(".")]
+            if len(tail) == 2 and tail[1].startswith(".0"):
+                return r[1]
+            return None
+        return r
 
     def _payload_of_branch(self, f, t, pos, env, depth, stack):
         c = callee_of(t)
+        if c and c.get("name") == "next" and c["krate"] in ("core", "alloc", "std") and t.get("dest"):
+            # `for (i, x) in slice.iter().enumerate()`: the index is below the length of a slice / Vec
+            dty = (c.get("rfull") or "") + " " + (c.get("full") or "") + " " + " ".join(str(a) for a in (c.get("args") or []))
+            if "Enumerate<core::slice::iter::" in dty or "Enumerate<alloc::vec::into_iter::" in dty or "Enumerate<core::slice::Iter" in dty:
+                return ("enum-index", (0, (1 << 63) - 2))
+            return None
         if c and c.get("name") == "branch" and t["a"] and op_local(t["a"][0]) is not None:
             src = None
             has_agg = False
@@ -461,6 +483,16 @@ class Analysis:
         if len(ds) != 1:
             return None
         d = ds[0]
+        if d["kind"] == "call":
+            # lossless integer conversions written as calls: u32::from(x_u8), x.into()
+            c = callee_of(d["term"])
+            if c and c.get("name") in ("from", "into") and c["def"].startswith("core::convert::") and len(d["term"]["a"]) == 1:
+                al = op_local(d["term"]["a"][0])
+                src_t = type_range(f.local_ty(al)) if al is not None else None
+                dst_t = type_range(f.local_ty(l))
+                if src_t and dst_t and dst_t[0] <= src_t[0] and src_t[1] <= dst_t[1] and len(op_place(d["term"]["a"][0])) == 1:
+                    return self._root_of(f, al, _depth + 1)
+            return l
         if d["kind"] != "assign":
             return l
         rv = d["rv"]
